@@ -140,8 +140,11 @@ impl ParsedParameters {
     }
 
     pub fn ellps(&self, index: usize) -> Ellipsoid {
-        // if 'ellps' was explicitly given, it will override 'ellps_0'
-        if index == 0 {
+        // if 'ellps' was explicitly given, it will override 'ellps_0'. But 'ellps' is
+        // always present (as a default, if nothing else), so an explicitly given
+        // 'ellps_0' must only yield to an explicitly given 'ellps'
+        let explicit_ellps_0 = self.given.contains_key("ellps_0") && !self.given.contains_key("ellps");
+        if index == 0 && !explicit_ellps_0 {
             if let Some(e) = self.text.get("ellps") {
                 return Ellipsoid::named(e).unwrap();
             }
